@@ -31,7 +31,7 @@ META = {
 
 
 META['explanation'] += ' Rounds 4-5: ' + 'R3 refusals decided by constant propagation through X12Path.__init__ for all part combinations (compiled regex applied to the constant component). R4 also: the index test measures the container that is subscripted. R6 reading methods do not modify the object. R7 (= C01.R8).'
-META['technique'] += '; conditional constant propagation over the CFG on finite, complete input domains (DESIGN.md 10.4.1)'
+META['technique'] = META.get('technique', 'static analysis: AST/CFG rules over /repo source + shipped XML data') + '; conditional constant propagation over the CFG on finite, complete input domains (DESIGN.md 10.4.1)'
 
 REF_PATH = r'([A-Z][A-Z0-9]{1,2})?(\[[A-Z0-9]+\])?([0-9]{2})?(-[0-9]+)?'
 REF_SEGID = r'[A-Z][A-Z0-9]{1,2}'
